@@ -153,8 +153,19 @@ Lookup(tab, k, dflt) ==
 Both(v) == [out |-> v, s |-> v]
 FoldRes(acc, emit) == [out |-> IF emit THEN <<acc>> ELSE <<>>, s |-> acc]
 OptRes(acc, emit) == [out |-> IF emit THEN acc ELSE <<>>, s |-> acc]
-RedAcc(f, all) == IF all = <<>> THEN <<>>
-                  ELSE <<FoldLeft(LAMBDA a0, e : RedF(f, a0, e), Head(all), Tail(all))>>
+RECURSIVE RedFrom(_, _, _), KFoldFrom(_, _, _), KRedFrom(_, _, _)
+RedFrom(f, acc, s) == IF s = <<>> THEN acc
+                      ELSE CHOOSE r \in {RedFrom(f, a, Tail(s)) : a \in {RedF(f, acc, Head(s))}} : TRUE
+RedAcc(f, all) == IF all = <<>> THEN <<>> ELSE <<RedFrom(f, Head(all), Tail(all))>>
+\* keyed tables (sequence of <<k, acc>>), strict in the table
+KFoldStep(f, tb, e) == Upsert(tb, e[1], FoldF(f, Lookup(tb, e[1], FoldInit(f)), e[2]))
+KFoldFrom(f, tb, s) == IF s = <<>> THEN tb
+                       ELSE CHOOSE r \in {KFoldFrom(f, t2, Tail(s)) : t2 \in {KFoldStep(f, tb, Head(s))}} : TRUE
+KRedStep(f, tb, e) == IF \E i \in 1..Len(tb) : tb[i][1] = e[1]
+                      THEN Upsert(tb, e[1], RedF(f, Lookup(tb, e[1], 0), e[2]))
+                      ELSE Append(tb, e)
+KRedFrom(f, tb, s) == IF s = <<>> THEN tb
+                      ELSE CHOOSE r \in {KRedFrom(f, t2, Tail(s)) : t2 \in {KRedStep(f, tb, Head(s))}} : TRUE
 NewOf(seen, x) == SelIdx(x, LAMBDA i : /\ \A j \in 1..Len(seen) : seen[j] # x[i]
                                       /\ \A j \in 1..(i - 1) : x[j] # x[i])
 UniqRes(seen, new) == [out |-> new, s |-> seen \o new]
@@ -201,10 +212,10 @@ DOp(d, s, a, B, k, cyc) ==
               IN GenRes(ap(hist \o x), ap(hist), hist \o x)
          \* fold emits its accumulator every tick; 'tick restarts from init
          [] op = "fold" ->
-              FoldRes(FoldLeft(LAMBDA a0, e : FoldF(d.f, a0, e), IF st(1) THEN s ELSE FoldInit(d.f), x), TRUE)
+              FoldRes(FoldFrom(d.f, IF st(1) THEN s ELSE FoldInit(d.f), x), TRUE)
          \* fold_no_replay emits on ticks with new input and on the first tick
          [] op = "fold_no_replay" ->
-              FoldRes(FoldLeft(LAMBDA a0, e : FoldF(d.f, a0, e), s, x), x # <<>> \/ k = 1)
+              FoldRes(FoldFrom(d.f, s, x), x # <<>> \/ k = 1)
          [] op = "reduce" -> OptRes(RedAcc(d.f, (IF st(1) THEN s ELSE <<>>) \o x), TRUE)
          [] op = "reduce_no_replay" -> OptRes(RedAcc(d.f, s \o x), x # <<>> \/ k = 1)
          \* join_multiset / cross_join_multiset: drain-then-enumerate, the whole join of the
@@ -224,13 +235,8 @@ DOp(d, s, a, B, k, cyc) ==
          [] op = "defer_tick_lazy" -> [out |-> s, s |-> x]
          \* 'static replays every group every tick, 'tick only this tick's groups
          [] op = "fold_keyed" ->
-              Both(FoldLeft(LAMBDA tb, e : Upsert(tb, e[1], FoldF(d.f, Lookup(tb, e[1], FoldInit(d.f)), e[2])),
-                            IF st(1) THEN s ELSE <<>>, x))
-         [] op = "reduce_keyed" ->
-              Both(FoldLeft(LAMBDA tb, e :
-                             IF \E i \in 1..Len(tb) : tb[i][1] = e[1]
-                             THEN Upsert(tb, e[1], RedF(d.f, Lookup(tb, e[1], 0), e[2]))
-                             ELSE Append(tb, e), IF st(1) THEN s ELSE <<>>, x))
+              Both(KFoldFrom(d.f, IF st(1) THEN s ELSE <<>>, x))
+         [] op = "reduce_keyed" -> Both(KRedFrom(d.f, IF st(1) THEN s ELSE <<>>, x))
 
 RECURSIVE DStep(_, _, _, _, _)
 DStep3(d, kr, r) == [out |-> r.out, st |-> [s |-> r.s, kids |-> [i \in 1..Len(d.in) |-> kr[i].st]]]
